@@ -63,6 +63,7 @@ type simAdapter struct {
 	// counters
 	FiredEnq, FiredDeq, FiredAck, FiredStall, Dups, Delays int
 	NoAckIDs int
+	big      simrt.Mutex
 	injected int // undecodable entries put into the backend by opInject
 	FiredAckLost int
 	Others int // notifications with an action other than "enqueued"
@@ -119,6 +120,13 @@ func subOfBytes(b []byte) int {
 
 func (a *simAdapter) enqueue(item any, prio int) bool {
 	simrt.YieldAlways()
+	if a.cfg.NSync {
+		// a backend that runs the subscribers' callbacks itself, inside Enqueue, under the
+		// one lock that also guards Len and the dequeues: the callback must not call back
+		// into the backend (only in episodes without worker-level barrier calls, see DESIGN)
+		a.big.Lock()
+		defer a.big.Unlock()
+	}
 	a.hb()
 	defer a.cutPoint()
 	defer a.hb()
@@ -185,6 +193,10 @@ func (a *simAdapter) head() int {
 
 func (a *simAdapter) DequeueWithAckId() (any, bool, string) {
 	simrt.YieldAlways()
+	if a.cfg.NSync {
+		a.big.Lock()
+		defer a.big.Unlock()
+	}
 	a.hb()
 	defer a.cutPoint()
 	defer a.hb()
@@ -292,6 +304,10 @@ func (a *simAdapter) Acknowledge(id string) bool {
 
 func (a *simAdapter) Len() int {
 	simrt.YieldAlways()
+	if a.cfg.NSync {
+		a.big.Lock()
+		defer a.big.Unlock()
+	}
 	a.hb()
 	defer a.cutPoint()
 	defer a.hb()
@@ -385,6 +401,11 @@ func (a *simAdapter) notify() {
 				}
 			}
 			nt := &notifyTask{a: a, i: i, d: d}
+			if a.cfg.NSync {
+				nt.d = 0
+				nt.run() // synchronously, on the enqueuing goroutine, under the backend's lock
+				continue
+			}
 			simrt.GoHarness("adapter.notify", nt.run)
 		}
 	}
